@@ -304,6 +304,7 @@ protected:
     AssertionStack frames;
 
     sstat status = s_Undef; // The status of the last solver call
+    bool searchAbortedByException = false; // A search was left by an exception; the solvers' internal state is undefined
 
 private:
     std::unique_ptr<Theory> theory;
